@@ -146,6 +146,12 @@ def r9_14(prog, chk, helpers=("locatorIdentify",)):
 
 def r9_15(prog, chk):
     n = 0
+    # RAII idiom: the class that owns the stream closes it in its destructor (then every exit of every reader is covered)
+    raii = set()
+    for f in prog.funcs:
+        if f.body is not None and f.kind == "dtor" and any((c.get("callee") or "").split("::")[-1] == "_fileClose" for c in f.calls()):
+            raii.add(f.cls)
+    chk.extra["stream_closed_by_destructor_of"] = sorted(raii)
     for f in sorted(prog.funcs, key=lambda x: (x.file, x.line)):
         if f.cfg is None:
             continue
@@ -171,7 +177,8 @@ def r9_15(prog, chk):
                 if core is not None and core["i"] == op["i"]:
                     return (k == 0) != pol
                 return True
-            w = g.search(st, to_exit=True, is_barrier=closes, edge_ok=eo)
+            owner_closes = bool(f.cls) and any(K in raii for K in [f.cls] + prog.bases(f.cls))
+            w = None if owner_closes else g.search(st, to_exit=True, is_barrier=closes, edge_ok=eo)
             ok = w is None
             if not ok:
                 chk.analysed(f)
